@@ -182,3 +182,239 @@ def semantic_occs_in_mesh(q, qsh, p, psh, maxlen):
         if ok:
             res.append(c)
     return res
+
+
+# ----------------------------------------------------------------------------- large inputs (hardener hg1)
+# Sizes the small streams never reach.  Every module using this adds a 'large' stream at the scales below.
+BIG_SCALES = {"S": (9, 12), "M": (21, 40), "L": (64, 70), "X": (197, 204), "Y": (401, 406), "Z": (1001, 1030)}
+
+
+def big_len(rng, scale):
+    lo, hi = BIG_SCALES[scale]
+    return rng.randint(lo, hi)
+
+
+def classical_occs_big(p, s):
+    """the same listing as classical_occs (lexicographic order) by extending index tuples one position at a
+    time and comparing the new value with the values chosen so far - used for long inputs, where running
+    through all of itertools.combinations is too slow; shares nothing with the floor/ceiling bounds of the code"""
+    k, n = len(p), len(s)
+    res = []
+    c = []
+
+    def ext():
+        j = len(c)
+        if j == k:
+            res.append(tuple(c))
+            return
+        pj = p[j]
+        for i in range(c[-1] + 1 if c else 0, n - (k - j) + 1):
+            v = s[i]
+            if all((p[a] < pj) == (s[c[a]] < v) for a in range(j)):
+                c.append(i)
+                ext()
+                c.pop()
+    ext()
+    return res
+
+
+def is_mesh_occ_big(shading, s, pos, c):
+    """cell by cell: the open rectangle of every shaded cell contains no point of s (walks along the
+    narrower side of the rectangle; pos is the inverse of s)"""
+    n = len(s)
+    cols = [-1] + list(c) + [n]
+    rows = [-1] + sorted(s[i] for i in c) + [n]
+    for (x, y) in shading:
+        a, b, lo, hi = cols[x], cols[x + 1], rows[y], rows[y + 1]
+        if b - a <= hi - lo:
+            if any(lo < s[i] < hi for i in range(a + 1, b)):
+                return False
+        elif any(a < pos[v] < b for v in range(lo + 1, hi)):
+            return False
+    return True
+
+
+def mesh_occs_big(p, shading, s):
+    shading = sorted(set(shading))
+    pos = [0] * len(s)
+    for i, v in enumerate(s):
+        pos[v] = i
+    return [c for c in classical_occs_big(p, s) if is_mesh_occ_big(shading, s, pos, c)]
+
+
+def mesh_occs_any(p, shading, s):
+    """the brute force over all index subsets for short permutations, the incremental listing for long ones"""
+    return mesh_occs(p, shading, s) if len(s) <= 14 else mesh_occs_big(p, shading, s)
+
+
+def is_increasing(p):
+    return all(p[i] < p[i + 1] for i in range(len(p) - 1))
+
+
+def group_positions(rng, n, k, mode=None):
+    """k increasing positions in range(n): hugging the start / the end, the first and the last positions
+    together, around the middle, spread with a constant gap, or random"""
+    if k > n:
+        return list(range(n))
+    mode = rng.randrange(7) if mode is None else mode
+    if mode == 0:
+        return list(range(k))
+    if mode == 1:
+        return list(range(n - k, n))
+    if mode == 2:
+        h = (k + 1) // 2
+        return list(range(h)) + list(range(n - (k - h), n))
+    if mode == 3:
+        a = max(0, min(n - k, n // 2 - k // 2))
+        return list(range(a, a + k))
+    if mode == 4 and k >= 2:
+        gap = max(1, (n - 1) // (k - 1))
+        gap = rng.randint(1, gap)
+        a = rng.choice([0, n - 1 - gap * (k - 1)])
+        return [a + gap * j for j in range(k)]
+    if mode == 5 and k >= 1:
+        return sorted(rng.sample(range(n - 1), k - 1) + [n - 1]) if n > k else list(range(n))
+    return sorted(rng.sample(range(n), k))
+
+
+def sparse_target(rng, p, n, copies=1):
+    """a permutation of length n with few occurrences of the classical pattern p: a monotone backbone that
+    avoids p (increasing unless p is increasing) in which `copies` groups of |p| positions (group_positions)
+    have their values rearranged into a copy of p"""
+    k = len(p)
+    s = list(range(n))
+    if k >= 2 and is_increasing(p):
+        s.reverse()
+    if k > n:
+        return tuple(s)
+    for _ in range(copies):
+        pos = group_positions(rng, n, k)
+        vals = sorted(s[i] for i in pos)
+        for j, i in enumerate(pos):
+            s[i] = vals[p[j]]
+    return tuple(s)
+
+
+def perturbed(rng, s, swaps=1):
+    """s with a few transpositions of entries (near misses / targets that differ only far from the start)"""
+    s = list(s)
+    n = len(s)
+    for _ in range(swaps):
+        if n < 2:
+            break
+        i = rng.choice([0, n - 2, rng.randrange(n - 1), n // 2])
+        j = min(n - 1, i + rng.choice([1, 1, 2, max(1, n // 3)]))
+        s[i], s[j] = s[j], s[i]
+    return tuple(s)
+
+
+def big_target(rng, p, shading, n, dense_ok):
+    """a structured target of length n for the mesh pattern (p, shading): planted with the extra points in
+    unshaded cells (`inflate`, only when dense_ok: the number of classical occurrences grows like n^|p|),
+    sparse (few classical occurrences), or a sparse one with a transposition"""
+    k = len(p)
+    r = rng.random()
+    if dense_ok and r < 0.5 and n >= k:
+        return inflate(rng, p, shading, n - k, cheat=rng.choice([0.0, 0.0, 0.1, 0.3]))
+    if dense_ok and r < 0.6:
+        return rand_perm(rng, n)
+    s = sparse_target(rng, p, n, copies=rng.choice([1, 1, 2, 3]))
+    return perturbed(rng, s) if rng.random() < 0.3 else s
+
+
+def sparse_shading(rng, k, count=None):
+    """a few cells of a long pattern's grid, biased to the boundary rows / columns and the corners"""
+    count = rng.randrange(1, 6) if count is None else count
+    res = set()
+    for _ in range(count):
+        x = rng.choice([0, k, rng.randrange(k + 1), rng.randrange(k + 1)])
+        y = rng.choice([0, k, rng.randrange(k + 1), rng.randrange(k + 1)])
+        res.add((x, y))
+    return sorted(res)
+
+
+def classical_occs_any(p, s):
+    return classical_occs(p, s) if len(s) <= 14 else classical_occs_big(p, s)
+
+
+def adjacency_occs_any(p, adj_idx, adj_val, s):
+    """adjacency_occs on top of classical_occs_any"""
+    n = len(s)
+    res = []
+    for c in classical_occs_any(p, s):
+        pos = [-1] + list(c) + [n]
+        val = [-1] + sorted(s[i] for i in c) + [n]
+        if all(pos[j + 1] == pos[j] + 1 for j in adj_idx) and all(val[v + 1] == val[v] + 1 for v in adj_val):
+            res.append(c)
+    return res
+
+
+def sub_shading_big(p, shading, c):
+    """the region reading of sub_shading_by_regions for long patterns, by marking: every cell (a, b) of the
+    original belongs to the sub-cell (number of chosen indices < a, number of chosen values < b); a sub-cell is
+    shaded iff none of its cells is unshaded and no point that was not chosen lies in it.  O(n^2)."""
+    import bisect
+    n, k = len(p), len(c)
+    cs = sorted(c)
+    vals = sorted(p[i] for i in cs)
+    shading = set(shading)
+    colx = [bisect.bisect_left(cs, a) for a in range(n + 1)]
+    rowy = [bisect.bisect_left(vals, b) for b in range(n + 1)]
+    bad = set()
+    for a in range(n + 1):
+        x = colx[a]
+        for b in range(n + 1):
+            if (a, b) not in shading:
+                bad.add((x, rowy[b]))
+    chosen = set(cs)
+    for i in range(n):
+        if i not in chosen:
+            bad.add((bisect.bisect_left(cs, i), bisect.bisect_left(vals, p[i])))
+    return [(x, y) for x in range(k + 1) for y in range(k + 1) if (x, y) not in bad]
+
+
+def region_shaded_and_pointfree(p, shading, cs, vals, x, y):
+    """one sub-cell of the pattern induced on the (sorted) indices cs with sorted values vals: its region consists
+    of the columns cs[x-1]+1 .. cs[x] and the rows vals[y-1]+1 .. vals[y] of the original (cs[-1] = vals[-1] = -1,
+    cs[k] = vals[k] = n); a point that was not chosen lies inside iff its index and value lie strictly between
+    those bounds"""
+    n, k = len(p), len(cs)
+    a0, a1 = (cs[x - 1] if x > 0 else -1), (cs[x] if x < k else n)
+    b0, b1 = (vals[y - 1] if y > 0 else -1), (vals[y] if y < k else n)
+    if any(b0 < p[i] < b1 for i in range(a0 + 1, a1)):
+        return False
+    return all((a, b) in shading for a in range(a0 + 1, a1 + 1) for b in range(b0 + 1, b1 + 1))
+
+
+def occs_in_mesh_big(q, qsh, p, psh):
+    """classical occurrences of q in p whose induced sub-pattern (region reading) shades at least the cells of
+    qsh - only the sub-cells named in qsh are examined"""
+    psh = set(psh)
+    qsh = sorted(set(qsh))
+    res = []
+    for c in classical_occs_any(q, p):
+        vals = sorted(p[i] for i in c)
+        if all(region_shaded_and_pointfree(p, psh, c, vals, x, y) for x, y in qsh):
+            res.append(c)
+    return res
+
+
+def band_cases(rng, lengths=(10, 12, 22, 34, 40, 66, 70, 130, 200, 260)):
+    """deterministic near misses that only show far from the start: for every length a band (two adjacent rows or
+    columns over the whole width of the grid, or a boundary row / column) that is fully shaded except for one hole
+    placed at the far end, one before the far end, or in the middle.  Yields (pattern, shading, rectangle, hole)."""
+    for n in lengths:
+        p = rand_perm(rng, n)
+        for hole_at in (n, n - 1, n // 2 + 1, None):
+            k = rng.choice([0, n - 1, rng.randrange(n)])
+            horizontal = rng.random() < 0.5
+            if horizontal:
+                rect = (0, k, n, k + 1)
+            else:
+                rect = (k, 0, k + 1, n)
+            cells = set((x, y) for x in range(rect[0], rect[2] + 1) for y in range(rect[1], rect[3] + 1))
+            hole = None
+            if hole_at is not None:
+                hole = (hole_at, rng.choice([k, k + 1])) if horizontal else (rng.choice([k, k + 1]), hole_at)
+                cells.discard(hole)
+            yield p, sorted(cells), rect, hole
